@@ -184,6 +184,7 @@ prop('C06', [
     misc.r_visit,
     bounds.r_accept,
     models.r_collect,
+    models.r_reorder_real,
 ],
     'find_or_add and swap accept exactly the arguments of their contract '
     '(prologue interpreted over small models: no edge to a node that does '
@@ -209,6 +210,7 @@ prop('C07', [
     raw.r_raw,
     reord.r_live_levels,
     state.r_levelsets,
+    models.r_reorder_real,
 ],
     'swap: old children released and new children acquired for every '
     'rewritten node, candidates handed to the rooted collection, '
@@ -226,6 +228,7 @@ prop('C08', [
     memo.r_inval,
     models.r_autoref_apply,
     models.r_autoref_siblings,
+    models.r_reorder_real,
 ],
     'Function.__init__ takes exactly one count on every normal path and '
     'none before a rejection; __del__ gives back exactly one, once '
@@ -476,7 +479,9 @@ MODEL_TEXT = {
            'functions that drive `swap` on a manager reduced to its '
            'variable order (every start and target permutation of four '
            'variables, pairs adjacent, sifted variable at a position of '
-           'least size, never larger).',
+           'least size, never larger); `reorder` with real swaps (explicit '
+           'orders and sifting) on managers that hold unreferenced nodes, '
+           'followed by a collection.',
     'C08': ' Models: `Function.__init__` / `__del__` against a recording '
            'manager; `BDD.__del__`; `autoref.BDD.apply`; every method '
            '`dd.autoref.BDD` shares with `dd.bdd.BDD` interpreted on both '
